@@ -107,7 +107,7 @@ class ClassAnalyzer:
         return [
             self._rust_analyzer.analyze_struct(
                 struct_node,
-                impl_map.get(self._rust_analyzer.get_impl_target_name(struct_node), []),
+                impl_map.get(self._scoped_name(struct_node), []),
                 context.file_content or "",
                 config,
             )
@@ -125,10 +125,25 @@ class ClassAnalyzer:
         """
         impl_map: dict[str, list] = {}
         for impl_node in impl_blocks:
-            target_name = self._rust_analyzer.get_impl_target_name(impl_node)
-            if target_name:
-                impl_map.setdefault(target_name, []).append(impl_node)
+            if self._rust_analyzer.get_impl_target_name(impl_node):
+                impl_map.setdefault(self._scoped_name(impl_node), []).append(impl_node)
         return impl_map
+
+    def _scoped_name(self, node: Any) -> str:
+        """Name a struct or impl target together with the module it is written in.
+
+        `mod a { struct Item }` and `mod b { struct Item }` are two types: an impl block belongs
+        to the struct of its own module.
+        """
+        modules = []
+        parent = node.parent
+        while parent is not None:
+            if parent.type == "mod_item":
+                name_node = parent.child_by_field_name("name")
+                modules.append(name_node.text.decode() if name_node is not None else "?")
+            parent = parent.parent
+        path = "::".join(reversed(modules))
+        return f"{path}::{self._rust_analyzer.get_impl_target_name(node)}"
 
     def _parse_python_safely(self, context: BaseLintContext) -> ast.AST | list[Violation]:
         """Parse Python code and return AST or syntax error violations.
